@@ -17,7 +17,7 @@ use std::rc::Rc;
 pub const INFO: PropInfo = PropInfo {
     quick_runs: 40_000,
     thorough_runs: 1_500_000,
-    rule: "each run = one JWT configuration (HS256/384/512, generated secret incl. empty and longer than the hash block, fang at the root / on a mount / local to a handler) and 2..10 requests on a keep-alive connection (sometimes reconnecting), \
+    rule: "each run = one JWT configuration (HS256/384/512, generated secret incl. empty and longer than the hash block, fang at the root / on a mount / local to a handler; token taken from the default place, or via `.get_token_by` from a custom header (then sometimes with a valid decoy token in the default place) or from another scheme) and 2..10 requests on a keep-alive connection (sometimes reconnecting), \
            each with a generated token (issued by the same configuration, built by the reference model with any payload and header, single-character mutations, re-signed with another key or algorithm, alg none/other/missing, typ/cty variants, 1/2/4 parts, wrong signature lengths, other schemes, garbage, missing) \
            and a simulated wall-clock instant chosen around the token's exp/nbf/iat (clock jumps forwards and backwards between requests); non-trivial = at least one token was admitted and one refused; distinct = distinct hash of (configuration, tokens, instants)",
     state_measure: "(token kind, verdict of the model, relation of now to the time claims) combinations",
@@ -27,7 +27,7 @@ pub const INFO: PropInfo = PropInfo {
         "payload objects carry no duplicate keys",
         "HMAC is implemented independently (ipad/opad construction) on top of the sha2 crate's compression functions; SHA-2 itself is trusted and cross-checked against Python's hashlib once per batch",
     ],
-    expected_probes: &["c12.issued_token_admitted", "c12.expired_refused", "c12.exp_boundary", "c12.nbf_boundary", "c12.clock_jump_backwards", "c12.mutation_refused", "c12.other_key_refused", "c12.alg_none_refused", "c12.four_parts", "c12.fractional_time_claim", "c12.previous_payload_not_leaked", "c12.options_bypass"],
+    expected_probes: &["c12.issued_token_admitted", "c12.expired_refused", "c12.exp_boundary", "c12.nbf_boundary", "c12.clock_jump_backwards", "c12.mutation_refused", "c12.other_key_refused", "c12.alg_none_refused", "c12.four_parts", "c12.fractional_time_claim", "c12.previous_payload_not_leaked", "c12.options_bypass", "c12.custom_token_source", "c12.decoy_in_default_place"],
 };
 
 #[derive(Clone, Debug, Serialize, Deserialize)]
@@ -39,6 +39,9 @@ pub struct Req {
     /// wall clock (unix seconds) while this request is handled
     pub now: u64,
     pub reconnect_before: bool,
+    /// with a customised token source: a VALID token sent in the default place, which must not count
+    #[serde(default)]
+    pub decoy: Option<String>,
 }
 #[derive(Clone, Debug, Serialize, Deserialize)]
 pub struct Scenario {
@@ -47,6 +50,9 @@ pub struct Scenario {
     /// 0 root fang, 1 fang of a mounted Ohkami, 2 local fang
     pub placement: u8,
     pub reqs: Vec<Req>,
+    /// 0 default (`Authorization: Bearer <t>`), 1 `.get_token_by` reading the custom header `X-Token: <t>`, 2 `.get_token_by` with the scheme `Token`
+    #[serde(default)]
+    pub token_source: u8,
 }
 
 // ---- independent token model ----------------------------------------------------------------------
@@ -134,6 +140,48 @@ pub enum Judgement {
 pub fn judge(alg: u16, secret: &str, authorization: Option<&str>, now: u64) -> Judgement {
     let Some(a) = authorization else { return Judgement::Refuse("no header") };
     let Some(token) = a.strip_prefix("Bearer ") else { return Judgement::Refuse("not the Bearer scheme") };
+    judge_token(alg, secret, token, now)
+}
+
+/// what goes on the wire for a request under a token source: (header lines, the token the configured source yields)
+pub fn wire(token_source: u8, r: &Req) -> (String, Option<String>) {
+    match token_source {
+        1 => {
+            let mut lines = String::new();
+            if let Some(d) = &r.decoy {
+                lines.push_str(&format!("Authorization: Bearer {d}\r\n"));
+            }
+            match &r.authorization {
+                Some(a) => {
+                    let v = a.strip_prefix("Bearer ").unwrap_or(a);
+                    lines.push_str(&format!("X-Token: {v}\r\n"));
+                    (lines, Some(v.to_string()))
+                }
+                None => (lines, None),
+            }
+        }
+        2 => match &r.authorization {
+            Some(a) => {
+                // swap the two schemes: what was a Bearer token is now a `Token` one and vice versa
+                let v = if let Some(rest) = a.strip_prefix("Bearer ") {
+                    format!("Token {rest}")
+                } else if let Some(rest) = a.strip_prefix("Token ") {
+                    format!("Bearer {rest}")
+                } else {
+                    a.clone()
+                };
+                (format!("Authorization: {v}\r\n"), v.strip_prefix("Token ").map(|s| s.to_string()))
+            }
+            None => (String::new(), None),
+        },
+        _ => match &r.authorization {
+            Some(a) => (format!("Authorization: {a}\r\n"), a.strip_prefix("Bearer ").map(|s| s.to_string())),
+            None => (String::new(), None),
+        },
+    }
+}
+
+pub fn judge_token(alg: u16, secret: &str, token: &str, now: u64) -> Judgement {
     let parts: Vec<&str> = token.split('.').collect();
     if parts.len() != 3 {
         return Judgement::Refuse("not three parts");
@@ -303,7 +351,7 @@ fn gen_req(sc_alg: u16, secret: &str, now_base: u64, issue: &dyn Fn(&Value) -> S
         _ => ("missing".into(), None),
     };
     let method = if t::chance(1, 12) { "OPTIONS" } else if t::chance(1, 4) { "POST" } else { "GET" };
-    Req { method: method.into(), authorization: auth, kind, now, reconnect_before: t::chance(1, 6) }
+    Req { method: method.into(), authorization: auth, kind, now, reconnect_before: t::chance(1, 6), decoy: None }
 }
 
 fn make_jwt(alg: u16, secret: &str) -> JWT<Value> {
@@ -338,7 +386,16 @@ pub fn generate(_cfg: &RunCfg, _out: &mut Outcome) -> Scenario {
         };
         reqs.push(gen_req(alg, &secret, now, &issue));
     }
-    Scenario { alg, secret, placement: t::draw(3) as u8, reqs }
+    let placement = t::draw(3) as u8;
+    let token_source = t::weighted(&[3, 1, 1]) as u8;
+    if token_source == 1 {
+        for r in reqs.iter_mut() {
+            if t::chance(1, 2) {
+                r.decoy = Some(issue(&json!({"sub": "decoy"})));
+            }
+        }
+    }
+    Scenario { alg, secret, placement, reqs, token_source }
 }
 
 pub fn run(cfg: &RunCfg, direct: Option<&serde_json::Value>) -> Outcome {
@@ -370,6 +427,18 @@ fn execute(sc: &Scenario, out: &mut Outcome) {
     out.scenario = serde_json::to_value(sc).unwrap_or(Value::Null);
     out.scenario_hash = rt::fnv64(serde_json::to_string(sc).unwrap_or_default().as_bytes());
     let jwt = make_jwt(sc.alg, &sc.secret);
+    fn from_x_token(req: &Request) -> Option<&str> {
+        req.headers.get("x-token")
+    }
+    fn from_token_scheme(req: &Request) -> Option<&str> {
+        req.headers.Authorization()?.strip_prefix("Token ")
+    }
+    let jwt = match sc.token_source {
+        1 => jwt.get_token_by(from_x_token),
+        2 => jwt.get_token_by(from_token_scheme),
+        _ => jwt,
+    };
+    let token_source = sc.token_source;
     let h = |req: &Request| {
         let r = me(req);
         async move { r }
@@ -404,7 +473,7 @@ fn execute(sc: &Scenario, out: &mut Outcome) {
                 w.count("fault.clock_jump");
             });
             let cl = c.as_mut().unwrap();
-            let auth = r.authorization.as_ref().map(|a| format!("Authorization: {a}\r\n")).unwrap_or_default();
+            let (auth, _) = wire(token_source, r);
             cl.send(format!("{} /api/me HTTP/1.1\r\nHost: s\r\n{auth}\r\n", r.method).as_bytes(), 0);
             let resp = cl.recv(false, DEFAULT_TIMEOUT).await;
             let ok = resp.is_ok();
@@ -436,8 +505,25 @@ fn execute(sc: &Scenario, out: &mut Outcome) {
     for (k, r) in sc.reqs.iter().enumerate() {
         let Some(resp) = obs.get(k) else { break };
         let kind0 = r.kind.split('/').next().unwrap_or("").to_string();
-        let j = judge(sc.alg, &sc.secret, r.authorization.as_deref(), r.now);
-        let desc = format!("request {k} ({}; now={}; alg HS{}; {} {:?})", r.kind, r.now, sc.alg, r.method, r.authorization.as_ref().map(|a| a.chars().take(200).collect::<String>()));
+        let (wire_lines, token) = wire(sc.token_source, r);
+        let j = match &token {
+            // whether blanks around a header value belong to it is not C12's business: open when it matters
+            Some(tk) if sc.token_source == 1 && tk.trim_matches([' ', '\t']) != tk => {
+                match (judge_token(sc.alg, &sc.secret, tk.trim_matches([' ', '\t']), r.now), judge_token(sc.alg, &sc.secret, tk, r.now)) {
+                    (Judgement::Refuse(a), Judgement::Refuse(_)) => Judgement::Refuse(a),
+                    _ => Judgement::Open,
+                }
+            }
+            Some(tk) => judge_token(sc.alg, &sc.secret, tk, r.now),
+            None => Judgement::Refuse("no token where the configuration looks"),
+        };
+        if sc.token_source != 0 {
+            out.probe("c12.custom_token_source");
+            if r.decoy.is_some() {
+                out.probe("c12.decoy_in_default_place");
+            }
+        }
+        let desc = format!("request {k} ({}; now={}; alg HS{}; token source {}; {} {:?})", r.kind, r.now, sc.alg, sc.token_source, r.method, wire_lines.chars().take(260).collect::<String>());
         let resp = match resp {
             Ok(x) => x,
             Err(e) => {
@@ -463,7 +549,7 @@ fn execute(sc: &Scenario, out: &mut Outcome) {
             out.probe("c12.options_bypass");
             continue;
         }
-        let grey_scheme = r.kind == "other-scheme" && r.authorization.as_deref().map(|a| a.to_ascii_lowercase().starts_with("bearer ")).unwrap_or(false);
+        let grey_scheme = r.kind == "other-scheme" && sc.token_source != 1 && wire_lines.to_ascii_lowercase().contains(if sc.token_source == 2 { "authorization: token " } else { "authorization: bearer " });
         match (&j, ran) {
             (Judgement::Admit(p), true) => {
                 let echoed: Result<Value, _> = serde_json::from_str(&resp.body_text());
